@@ -36,6 +36,8 @@ inductive P
   /-- `ctx->incoming_buffer = buffer;` -/
   | setInPtr
   | tailTopUp | tailRet
+  /-- base family: `if (flags == X) { <alg>_init / _update / _final (ctx, …); }` (synchronous hashing, outside the prefix) -/
+  | tailCalls
   | unsupported (src : String)
   deriving DecidableEq, Repr, Inhabited
 
@@ -103,6 +105,7 @@ def step (fl ln : Nat) (o : Out) (p : P) : Out :=
   | .setInPtr => { o with s := { o.s with inptr := true } }
   | .tailTopUp => o
   | .tailRet => o
+  | .tailCalls => o
   | .unsupported _ => { o with bad := true }
 
 def run (prog : List P) (fl ln : Nat) (s : St) : Out := prog.foldl (step fl ln) { s := s }
@@ -121,6 +124,14 @@ def canon : List P :=
     .set .status (.ite (.and .flags (.lit 2)) (.lit 3) (.lit 1)),
     .set .total (.add (.fld .total) .len),
     .tailTopUp, .tailRet ]
+
+/-- the prefix of `_<alg>_ctx_mgr_submit_base` as written in the 5 base files today -/
+def canonBase : List P :=
+  [ .rej (.and .flags (.lit 4294967292)) (-1),
+    .rej (.land (.and (.fld .status) (.lit 1)) (.eq .flags (.lit 3))) (-2),
+    .rej (.land (.and (.fld .status) (.lit 4)) (.lnot (.and .flags (.lit 1)))) (-3),
+    .setErr 0,
+    .tailCalls, .tailCalls, .tailCalls, .tailCalls, .tailRet ]
 
 structure Src where
   file : String
